@@ -1772,7 +1772,13 @@ class _Impl:
         loaded = self.attempt(lambda: pg.from_json_str(text, allow_partial=True))
       else:
         pg.save(v, path, **kw)
-        j = json.loads(self.pg_io.readfile(path))
+        raw = self.pg_io.readfile(path)
+        try:
+          j = json.loads(raw)
+        except ValueError:
+          # what the file holds after the save is not even JSON (e.g. the tail of an earlier, longer save
+          # survived an overwrite): an observation for the oracle, not a harness failure
+          j = {'__saved_file_is_not_json__': str(raw)[:120]}
         loaded = self.attempt(lambda: pg.load(path))
       jf = pg.to_json(fresh, **kw)
       rec = {'json': self.jv_wire(j), 'fresh_same': self.jv_wire(j) == self.jv_wire(jf), 'cur': cur,
